@@ -18,7 +18,16 @@
                                                      class default of `command` / `protocol` and empty raw caches
      enumerate(l)                                 := the list of (index, element) tuples   [not in Prelude/PyWorld.v]
    Library functions called from other library functions are the MODEL functions; those with a loop take the model's
-   fuel `mfuel` (a parameter of the world), and the tie theorems are stated for the same `mfuel`. *)
+   fuel `mfuel` (a parameter of the world), and the tie theorems are stated for the same `mfuel`.
+   x.pack() : the model's pack functions write `le w z` (total) where the source calls z.to_bytes(w, ..), which raises
+   OverflowError outside [0, 256^w).  The world therefore gives a nested x.pack() the CHECKED pack
+   `ovf (<X>_ranges x) (<X>_pack x)`: the model's bytes when every to_bytes reached from X.pack (recursively) is in
+   range, OverflowError otherwise -- literally the right-hand side of X.pack's own tie theorem, so composite packs inherit
+   the range conditions.  Only the classes whose pack is called from another pack have an entry (DataRep, PDUHeader,
+   SecTrailer, SyntaxId, ContextElement, ContextResult, Command and its subclasses, Floor and its subclasses).
+   `.value` of an int: IntEnum / IntFlag members are ints here and do not carry their class; the only use is
+   `self.command.value | self.flags.value` in Command.pack, where CommandType (with its _missing_ hook) and CommandFlags
+   (an IntFlag) have every int the fields can hold as a member. *)
 From V Require Import Prelude.Base Prelude.PyInt Prelude.PySlice Prelude.PyStr Prelude.PyAst Prelude.PyWorld.
 From V Require Import Model.Pdu Model.Request Model.RpcLoop Model.Bind Model.Verification Model.Epm.
 Local Open Scope string_scope.
@@ -319,26 +328,94 @@ Definition rpc_setattr (a : string) (o v : V) : option (res V) :=
   | _, _ => None
   end.
 
-(* x.pack(): the model's pack of the receiver's class (virtual dispatch on the constructor / kind) *)
+(* ---- field ranges: every z.to_bytes(w, ..) reached from X.pack, in evaluation order ------------------------ *)
+Definition ovf (b : bool) (x : bytes) : res bytes := if b then Ok x else Raise OverflowError.
+
+Definition data_rep_ranges (d : data_rep) : bool :=
+  in_range 1 (k_datarep_first_octet (dr_byte_order d) (dr_character d)) && in_range 1 (dr_floating_point d).
+Definition pdu_header_ranges (h : pdu_header) : bool :=
+  in_range 1 (h_version h) && in_range 1 (h_version_minor h) && in_range 1 (h_packet_type h) && in_range 1 (h_packet_flags h)
+  && data_rep_ranges (h_data_rep h) && in_range 2 (h_frag_len h) && in_range 2 (h_auth_len h) && in_range 4 (h_call_id h).
+Definition sec_trailer_ranges (s : sec_trailer) : bool :=
+  in_range 1 (st_type s) && in_range 1 (st_level s) && in_range 1 (st_pad_length s) && in_range 4 (st_context_id s).
+(* `self.sec_trailer.pack() if self.sec_trailer else b""` *)
+Definition opt_sec_trailer_ranges (s : option sec_trailer) : bool :=
+  match s with Some t => sec_trailer_ranges t | None => true end.
+Definition syntax_id_ranges (s : syntax_id) : bool := in_range 2 (sy_version s) && in_range 2 (sy_version_minor s).
+Definition context_element_ranges (c : context_element) : bool :=
+  in_range 2 (ce_context_id c) && in_range 2 (len (ce_transfer_syntaxes c)) && syntax_id_ranges (ce_abstract_syntax c)
+  && forallb syntax_id_ranges (ce_transfer_syntaxes c).
+Definition context_result_ranges (r : context_result) : bool :=
+  in_range 2 (cr_result r) && in_range 2 (cr_reason r) && in_range 4 (cr_syntax_version r).
+
+(* Command.pack on (command, flags, value); a known class first packs its typed fields into `value` *)
+Definition command_generic_ranges (command flags : Z) (value : bytes) : bool :=
+  in_range 2 (Z.lor command flags) && in_range 2 (len value).
+Definition cmd_kind_ranges (k : cmd_kind) : bool :=
+  match k with
+  | CK_Generic => true
+  | CK_Bitmask bits => in_range 4 bits
+  | CK_PContext i t => syntax_id_ranges i && syntax_id_ranges t
+  | CK_Header2 pt dr call ctx op => in_range 1 pt && data_rep_ranges dr && in_range 4 call && in_range 2 ctx && in_range 2 op
+  end.
+Definition command_ranges (c : command) : bool :=
+  cmd_kind_ranges (cmd_kind_of c) && command_generic_ranges (command_type c) (cmd_flags c) (command_value c).
+
+(* Floor.pack on (protocol, lhs, rhs); a known class first packs its typed fields into lhs / rhs *)
+Definition floor_generic_ranges (protocol : Z) (lhs rhs : bytes) : bool :=
+  in_range 2 (len lhs + 1) && in_range 1 protocol && in_range 2 (len rhs).
+Definition floor_kind_ranges (k : floor_kind) : bool :=
+  match k with
+  | FK_Generic => true
+  | FK_TCP port => in_range 2 port
+  | FK_IP addr => in_range 4 addr
+  | FK_RPC_CO vm => in_range 2 vm
+  | FK_UUID _ v vm => in_range 2 v && in_range 2 vm
+  end.
+Definition floor_ranges (f : floor) : bool :=
+  floor_kind_ranges (fl_kind f) && floor_generic_ranges (floor_protocol f) (floor_lhs f) (floor_rhs f).
+
+(* the messages (their pack is not called from another pack; used in the tie statements) *)
+Definition fault_ranges (m : fault) : bool :=
+  pdu_header_ranges (f_header m) && in_range 4 (f_alloc_hint m) && in_range 2 (f_context_id m) && in_range 1 (f_cancel_count m)
+  && in_range 1 (f_flags m) && in_range 4 (f_status m) && opt_sec_trailer_ranges (f_sec_trailer m).
+Definition request_ranges (m : request) : bool :=
+  pdu_header_ranges (rq_header m) && in_range 4 (rq_alloc_hint m) && in_range 2 (rq_context_id m) && in_range 2 (rq_opnum m)
+  && opt_sec_trailer_ranges (rq_sec_trailer m).
+Definition response_ranges (m : response) : bool :=
+  pdu_header_ranges (rs_header m) && in_range 4 (rs_alloc_hint m) && in_range 2 (rs_context_id m) && in_range 1 (rs_cancel_count m)
+  && opt_sec_trailer_ranges (rs_sec_trailer m).
+Definition bind_ranges (m : bind_msg) : bool :=
+  pdu_header_ranges (b_header m) && in_range 2 (b_max_xmit_frag m) && in_range 2 (b_max_recv_frag m) && in_range 4 (b_assoc_group m)
+  && in_range 4 (len (b_contexts m)) && forallb context_element_ranges (b_contexts m) && opt_sec_trailer_ranges (b_sec_trailer m).
+Definition bind_ack_ranges (m : bind_ack) (b_sec_addr : bytes) : bool :=
+  forallb context_result_ranges (ba_results m) && pdu_header_ranges (ba_header m)
+  && in_range 2 (ba_max_xmit_frag m) && in_range 2 (ba_max_recv_frag m) && in_range 4 (ba_assoc_group m)
+  && in_range 2 (len b_sec_addr) && in_range 4 (len (ba_results m)) && opt_sec_trailer_ranges (ba_sec_trailer m).
+Definition bind_nak_ranges (m : bind_nak) : bool :=
+  forallb (fun v => in_range 1 (fst v) && in_range 1 (snd v)) (bn_versions m) && in_range 1 (len (bn_versions m))
+  && pdu_header_ranges (bn_header m) && in_range 2 (bn_reject_reason m).
+Definition handle_ranges (h : option (Z * bytes)) : bool := match h with Some (a, _) => in_range 4 a | None => true end.
+Definition ept_map_ranges (m : ept_map) : bool :=
+  in_range 2 (len (em_tower m)) && forallb floor_ranges (em_tower m) && handle_ranges (em_entry_handle m)
+  && in_range 8 (len (tower_bytes (em_tower m))) && in_range 4 (len (tower_bytes (em_tower m))) && in_range 4 (em_max_towers m).
+Definition tower_ranges (t : list floor) : bool :=
+  in_range 2 (len t) && forallb floor_ranges t && in_range 4 (len (tower_bytes t)).
+Definition ept_map_result_ranges (m : ept_map_result) : bool :=
+  handle_ranges (er_entry_handle m) && forallb tower_ranges (er_towers m) && in_range 4 (len (er_towers m)) && in_range 4 (er_status m).
+
+(* x.pack() where it is called from another pack: the checked pack of the receiver's class (virtual dispatch on the
+   constructor / kind) *)
 Definition rpc_pack (o : obj) : option (res bytes) :=
   match o with
-  | ODataRep d => Some (Ok (data_rep_pack d))
-  | OHeader h => Some (Ok (pdu_header_pack h))
-  | OSecTrailer s => Some (Ok (sec_trailer_pack s))
-  | OFault m => Some (Ok (fault_pack m))
-  | ORequest m => Some (Ok (request_pack m))
-  | OResponse m => Some (Ok (response_pack m))
-  | OSyntaxId s => Some (Ok (syntax_id_pack s))
-  | OContextElement c => Some (Ok (context_element_pack c))
-  | OContextResult r => Some (Ok (context_result_pack r))
-  | OBind m => Some (Ok (bind_pack m))
-  | OBindAck m => Some (bind_ack_pack m)
-  | OBindNak m => Some (Ok (bind_nak_pack m))
-  | OCommand c => Some (Ok (command_pack c))
-  | OVT cs => Some (Ok (verification_trailer_pack cs))
-  | OFloor f => Some (Ok (floor_pack f))
-  | OEptMap m => Some (Ok (ept_map_pack m))
-  | OEptMapResult m => Some (Ok (ept_map_result_pack m))
+  | ODataRep d => Some (ovf (data_rep_ranges d) (data_rep_pack d))
+  | OHeader h => Some (ovf (pdu_header_ranges h) (pdu_header_pack h))
+  | OSecTrailer s => Some (ovf (sec_trailer_ranges s) (sec_trailer_pack s))
+  | OSyntaxId s => Some (ovf (syntax_id_ranges s) (syntax_id_pack s))
+  | OContextElement c => Some (ovf (context_element_ranges c) (context_element_pack c))
+  | OContextResult r => Some (ovf (context_result_ranges r) (context_result_pack r))
+  | OCommand c => Some (ovf (command_ranges c) (command_pack c))
+  | OFloor f => Some (ovf (floor_ranges f) (floor_pack f))
   | _ => None
   end.
 
